@@ -1,6 +1,7 @@
 #![allow(dead_code, unused_variables, unused_imports, unused_mut)]
 pub mod canon;
 pub mod subject;
+pub mod ctx;
 pub mod pool;
 pub mod report;
 pub mod checks;
